@@ -117,6 +117,7 @@ type Monitor struct {
 	Invariants []Clause
 	Trans      []Clause
 	Assumes    []Clause // assumptions made at entry of every action (listed as trusted)
+	Tracks     []Track  // calls of the via-function tracked in every action (montrack)
 	// lock-style monitors: "monitor <name> lock <Type>.<mutexField> as <var>": the critical sections are the code
 	// between <x>.<mutexField>.Lock() and Unlock(); <var> names the owner object x in invariants and transitions.
 	Kind          string // "via" or "lock"
@@ -155,7 +156,7 @@ var clauseKeywords = map[string]bool{
 	"ghost": true, "loop": true, "nopanic": true, "trusted": true, "panics": true, "track": true, "global-invariant": true,
 	"monitor": true, "invariant": true, "transition": true, "lemma": true, "axiom": true, "inline": true, "assert": true,
 	"props": true, "params": true, "protects": true, "snapshot": true, "abstract": true, "callee": true, "ghostvar": true, "on": true, "state": true, "closeonly": true, "assume": true, "freshcounter": true,
-	"trust-section": true, "unpublished": true, "holds": true, "constant": true, "heapfacts": true, "rangeloop": true, "discipline-only": true,
+	"trust-section": true, "montrack": true, "unpublished": true, "holds": true, "constant": true, "heapfacts": true, "rangeloop": true, "discipline-only": true,
 }
 
 type rawClause struct {
@@ -403,6 +404,16 @@ func (db *SpecDB) LoadSpecFile(path, pkgPath string) error {
 					curMon.Unpublished = append(curMon.Unpublished, qualify(strings.TrimSpace(p), pkgPath))
 				}
 			}
+		case "montrack":
+			// montrack <callee> as <alias>: a tracked call in the via-function's epilogue, usable in transitions
+			if curMon == nil {
+				return fmt.Errorf("%s:%d: montrack outside monitor", path, rc.line)
+			}
+			fs := strings.Fields(rc.rest)
+			if len(fs) != 3 || fs[1] != "as" {
+				return fmt.Errorf("%s:%d: montrack needs '<callee> as <alias>'", path, rc.line)
+			}
+			curMon.Tracks = append(curMon.Tracks, Track{Callee: fs[0], Alias: fs[2]})
 		case "closeonly":
 			if curMon == nil {
 				return fmt.Errorf("%s:%d: closeonly outside monitor", path, rc.line)
